@@ -978,6 +978,12 @@ func (s *Stage) finalize(file *finalFile) {
 		// one was waiting; the staged body is the newer version's, so logging
 		// and delivering it under this version's hash would be wrong
 		s.logDebug("Ignoring superseded version (final):", file.name, file.hash)
+		if current.state == stateValidated {
+			// The newer version may have been refused a place in the wait
+			// list because this one was already there; make sure it gets
+			// its turn now
+			go s.finalizeQueue(current)
+		}
 		return
 	}
 
